@@ -278,7 +278,11 @@ def check(run):
         sysfile, _ = pool4.system('sys_%d.gro' % k, present, r, nmol=int(r.integers(4, 12)))
         pool4.sysfile = sysfile
         auto = k % 2 == 0
-        explicit = sorted(str(s) for s in r.choice(present, int(r.integers(0 if auto else 1, 3)), replace=False))
+        explicit = [str(s) for s in r.choice(present, int(r.integers(0 if auto else 1, 3)), replace=False)]
+        if not auto and k % 4 == 1:
+            # two explicit species, the one with a one- or two-bead start molecule first (its exchange map draws random
+            # numbers: the order of alignments and map constructions matters for the random stream)
+            explicit = [str(r.choice(['B', 'D'])), str(r.choice(['A', 'C']))]
         cands = []
         if auto:
             for s in present:
